@@ -14,6 +14,6 @@ Extraction "model.ml"
   C03O.c03_lim_ok C03O.lim_model C03O.alias_ok C03O.am_run Limiter.am_new C03O.unack_run C03O.unack_ok
   TopicMatch.valid_name_spec TopicMatch.valid_filter_spec Topic.topic_match
   Redis.exec_all Redis.blob_eqb RQueue.rq_model RQueue.abstract_ops
-  Crash.cur_code Crash.all_fixed Crash.code_fixes Crash.sops_cmds Crash.sops_flat Crash.ru_run
+  Crash.cur_code Crash.all_fixed Crash.code_fixes Crash.sops_cmds Crash.sops_flat Crash.ru_run Crash.trim_left
   C09O.kf_redis_hdel_slice C09O.kf_redis_trimleft C09O.reload_ops C09O.runack_ok C09O.kf_redis_unack_reload C09O.c10r_ok C09O.rq_class
   Topic.split_topic C09O.crash_prefix_fails C09O.explain C09O.model_journal C09O.model_prefix Crash.jcmds.
